@@ -26,6 +26,37 @@ func c15Docs(n int) []*doc.Tree {
 	return append(out, uniT(n)[1:]...)
 }
 
+// c15SizeDocs: a chain of 24 and of 40 nested a elements (attribute a on every
+// third, a leaf b with text at the bottom), and one parent with 70 children.
+func c15SizeDocs() []*doc.Tree {
+	uniMu.Lock()
+	if t, ok := uniCache["C15Size"]; ok {
+		uniMu.Unlock()
+		return t
+	}
+	uniMu.Unlock()
+	var out []*doc.Tree
+	for _, depth := range []int{24, 40} {
+		s := doc.Spec{K: "e", N: "b", C: []doc.Spec{{K: "t", V: "1"}}}
+		for i := 0; i < depth; i++ {
+			s = doc.Spec{K: "e", N: "a", A: attrIf(i%3 == 0, "a", []string{"1", "2", "x"}[i%3]), C: []doc.Spec{s}}
+			if i%7 == 3 {
+				s.C = append(s.C, doc.Spec{K: "e", N: "b"})
+			}
+		}
+		out = append(out, doc.Build([]doc.Spec{s}))
+	}
+	var kids []doc.Spec
+	for i := 0; i < 70; i++ {
+		kids = append(kids, doc.Spec{K: "e", N: []string{"a", "b"}[i%2], A: attrIf(i%3 == 0, "a", "1")})
+	}
+	out = append(out, doc.Build([]doc.Spec{{K: "e", N: "a", C: kids}}))
+	uniMu.Lock()
+	uniCache["C15Size"] = out
+	uniMu.Unlock()
+	return out
+}
+
 // safeRun is the C15 oracle for one (expression, document, context, op).
 func c15Check(w *explore.Worker, space, s string, skel string, docs []*doc.Tree, both bool) {
 	e, err, pan := eng.Compile(s, false, nil)
@@ -275,7 +306,28 @@ func c15Spaces(tier string) []*explore.Space {
 			w.RefOutcome("n/a")
 		},
 	}
-	return []*explore.Space{fnSpace, mkSpace("Op", "every binary operator x every ordered pair of 27 typed operands (bare, in a predicate, negated) + 3-operand chains over 6 operands", opItems),
+	// (d) size thresholds: deep and wide documents, many capture groups — expressions as strings
+	var sizeExprs []string
+	for _, ax := range []string{"descendant", "descendant-or-self", "ancestor", "ancestor-or-self", "following", "preceding", "child", "following-sibling"} {
+		for _, pr := range []string{"[1]", "[last()]", "[@a]", "[@a = '1']", "[position() = 20]", "[17]", "[not(*)]", "[last() - 16]"} {
+			sizeExprs = append(sizeExprs, "/"+ax+"::*"+pr, ax+"::*"+pr, "count(/"+ax+"::a"+pr+")", "//*["+ax+"::*"+pr+"]", "("+ax+"::node())"+pr)
+		}
+	}
+	sizeExprs = append(sizeExprs, "//a[1]", "//*[last()]", "(//*)[last()]", "//*[ancestor::*[17]]", "//*[count(ancestor::*) > 16]", "string(/)", "string-length(/)", "//*[33]", "//b/ancestor::*[33]", "sum(//@a)", "//a//b",
+		"//*[. = //b]", "//a | //b", "//*/.. | //b/..", "reverse(//*)", "string-join(//*/@a, ',')", "concat(//b, //a[40]/@a)", "normalize-space(/)", "translate(string(/), '1', '2')")
+	for _, k := range []int{1, 9, 10, 11, 31, 32, 33, 99, 100, 101, 127, 128, 129, 255, 256, 257} {
+		pat := strings.Repeat("(a?)", k)
+		sizeExprs = append(sizeExprs, fmt.Sprintf("replace('aaa', '%s', '[$%d]')", pat, k), fmt.Sprintf("replace('aaa', '%s', '$1$%d$%d')", pat, k, k+1), fmt.Sprintf("matches('aaa', '^%sb?$')", pat),
+			fmt.Sprintf("replace(//b, '%s', '$%d-')", pat, k/2+1))
+	}
+	sizeSpace := &explore.Space{Name: "Size", Desc: "positional / boolean predicates on every long axis, deep unions, string functions of the whole document on chains of depth 24 and 40 and a parent with 70 children; regular expressions with 1..257 capture groups and $n references at and around 10, 32, 100, 128, 256",
+		Size:  len(sizeExprs),
+		Label: func(i int) string { return sizeExprs[i] },
+		Run: func(i int, w *explore.Worker) {
+			c15Check(w, "Size", sizeExprs[i], shape(sizeExprs[i]), c15SizeDocs(), true)
+			w.RefOutcome("n/a")
+		}}
+	return []*explore.Space{sizeSpace, fnSpace, mkSpace("Op", "every binary operator x every ordered pair of 27 typed operands (bare, in a predicate, negated) + 3-operand chains over 6 operands", opItems),
 		mkSpace("Misc", "numeric/odd predicates on all 13 axis names in every position, two- and three-step axis combinations incl. namespace::, variables", misc), tokSpace}
 }
 
